@@ -3,6 +3,10 @@
 definition and use, never by name."""
 import json, os, re, shutil, subprocess, sys, tempfile
 NAMES = {
+    "detail/compiler.hpp": ["rtc", "rtb", "rtbb", "cr", "class_", "mask", "group", "spec", "specs", "candidates", "nexts", "next_info", "dims", "slot", "unavailable_slots", "stride",
+                            "meth_iter", "spec_iter", "meth_info", "definition_info", "param_index", "method_index", "spec_size", "covariant", "covariant_class", "pd", "next_slot",
+                            "gv_first", "gv_last", "gv_iter", "dispatch_data_size", "mark", "bases", "dim_group", "group_num", "applicable", "best", "best_iter", "candidate", "total", "partial",
+                            "a_iter", "a_last", "b_iter", "result", "first_slot", "ci", "ti", "definition", "base_iter", "error", "type"],
     "detail/static_list.hpp": ["prev", "next", "last", "cur", "tmp"],
     "policies/fast_perfect_hash.hpp": ["found", "attempts", "total_attempts", "hash_size", "index", "iter", "type_iter", "rnd", "uniform_dist", "pass", "buckets", "error"],
     "policies/vptr_vector.hpp": ["size", "index", "iter", "type_iter"],
